@@ -119,3 +119,68 @@ fn permitted_client(c: &mut Case, cfg: &sim::CfgSpec) -> std::net::IpAddr {
     }
     sim::gen_client(&mut c.rng, cfg)
 }
+
+struct FuzzWorld {
+    w: sim::World,
+    spy: sim::Spy,
+}
+
+fn fuzz_world() -> Result<FuzzWorld, String> {
+    // fixed world: permissive lists, no rate limiting, all versions, fixed key set (so NTS cookies in the seed corpus stay valid)
+    let mut rng = crate::core::Rng::new(0x5EED_C22);
+    let cfg = sim::gen_cfg(&mut rng, sim::CfgOpts { lists: false, rate: sim::RateMode::Off, require_nts: false, version_subsets: false });
+    let (spec, info) = sim::gen_info(&mut rng, 0x8000_0000_0000_0000, false);
+    let keys = sim::gen_keys(&mut rng, 2, 2)?;
+    let w = sim::build_world(cfg, spec, info, keys, 0x8000_0000_0000_1000)?;
+    Ok(FuzzWorld { w, spy: sim::Spy::default() })
+}
+
+thread_local! {
+    static FUZZ_W: std::cell::RefCell<Option<FuzzWorld>> = const { std::cell::RefCell::new(None) };
+}
+
+/// byte-driven entry (libFuzzer tier): one datagram against a fixed server with the daemon's request-sized
+/// buffer. Oracles: no panic (C22), reply no longer than the request (C16), exactly one statistics entry (C21).
+pub fn fuzz_bytes(c: &mut Case, data: &[u8]) {
+    if data.len() > 1024 {
+        return;
+    }
+    FUZZ_W.with(|cell| {
+        let mut g = cell.borrow_mut();
+        if g.is_none() {
+            match fuzz_world() {
+                Ok(w) => *g = Some(w),
+                Err(e) => return c.harness_error(e),
+            }
+        }
+        let fw = g.as_mut().unwrap();
+        let ip: std::net::IpAddr = "192.0.2.7".parse().unwrap();
+        fw.spy.regs.clear();
+        let server = &mut fw.w.server;
+        let spy = &mut fw.spy;
+        let h = c.no_panic("handle", || json!({"datagram": hex(data), "class": "fuzz"}), || sim::handle_buf(server, spy, ip, 0x8000_0000_0000_2000, data, data.len()));
+        match h {
+            None => {
+                // the server may be in an arbitrary state after an unwound panic
+                *g = None;
+            }
+            Some(h) => {
+                if let Some(r) = &h.reply {
+                    if r.len() > data.len() {
+                        c.violation("fuzz/amplify", format!("reply of {} bytes to a request of {} bytes", r.len(), data.len()), json!({"datagram": hex(data), "reply": hex(r)}));
+                    }
+                }
+                if h.regs.len() != 1 {
+                    c.violation("fuzz/stats-count", format!("{} statistics entries for one datagram", h.regs.len()), json!({"datagram": hex(data)}));
+                }
+            }
+        }
+    });
+}
+
+/// seed corpus for the fuzz tier: datagrams from the request grammar built with the fixed fuzz world's keys
+pub fn fuzz_corpus(n: usize) -> Vec<Vec<u8>> {
+    let mut rng = crate::core::Rng::new(0xC0FFEE22);
+    let Ok(fw) = fuzz_world() else { return vec![] };
+    (0..n).filter_map(|_| sim::gen_any(&mut rng, &fw.w.keys).ok().map(|r| r.bytes)).filter(|b| b.len() <= 1024).collect()
+}
